@@ -259,7 +259,8 @@ impl<'a> Minimiser<'a> {
                 self.dir,
                 &c,
                 "search",
-                &["--sseed".into(), format!("{}", 7 + k), "--budget".into(), "1500".into()],
+                // fewer schedules for long ranges (a 6000-day schedule costs ~0.1 s)
+                &["--sseed".into(), format!("{}", 7 + k), "--budget".into(), format!("{}", (300_000 / (w.days.max(1) as u64)).clamp(60, 1500))],
                 self.timeout(),
             );
             if probe_class(&r) == self.class {
